@@ -18,55 +18,63 @@ def log(*a):
 
 # ------------------------------------------------------------------------------------------ E2 jobs
 
+SEM = None   # cross-process token pool (one token per busy core), created in main()
+
+def _reset(ex):
+    ex.stats = {k: (0 if isinstance(v, (int, float)) and not isinstance(v, bool) else v) for k, v in ex.stats.items()}
+    ex.stats.pop('timeout', None)
+    ex.violations = []; ex.samples = []; ex.reach_all = set(); ex.funcs_executed = set()
+    ex.bound_exceeded_at = {}; ex.unsupported_at = {}; ex.viol_keys = {}
+
+def _worker(ex, entry, t_end, outdir, depth=0):
+    """explore ex.stack; while tokens are free, hand the older half of the pending states to a forked helper"""
+    kids = []; last = time.time()
+    while ex.stack:
+        now = time.time()
+        if t_end is not None and now > t_end:
+            ex.stats['timeout'] = True; break
+        ex.run(ex.stack.pop())
+        if SEM is not None and len(ex.stack) >= 2 and now - last > 1.0 and SEM.acquire(False):
+            n = len(ex.stack) // 2
+            give = ex.stack[:n]
+            pid = os.fork()
+            if pid == 0:
+                try:
+                    _reset(ex); ex.stack = give
+                    _worker(ex, entry, t_end, outdir, depth + 1)
+                    res = collect(ex, entry, 0)
+                except BaseException:
+                    res = dict(entry=entry, error=traceback.format_exc())
+                try:
+                    with open(os.path.join(outdir, 'r_%d.pkl' % os.getpid()), 'wb') as f: pickle.dump(res, f)
+                finally:
+                    SEM.release()
+                    os._exit(0)
+            ex.stack = ex.stack[n:]
+            kids.append(pid); last = time.time()
+    for pid in kids:
+        os.waitpid(pid, 0)
+
 def explore_entry(module, entry, opts, budget_s, split=0):
-    """run one entry; with split>0 the pending states are distributed over forked child processes"""
-    import symex
+    """run one entry; with split>0 pending states are handed to helper processes whenever a core token is free"""
+    import symex, tempfile, shutil
     ex = symex.Executor(module, opts)
     t0 = time.time()
-    if split <= 1:
+    if split <= 1 or SEM is None:
         ex.explore(entry, budget_s)
         return collect(ex, entry, time.time() - t0)
-    target = split * 6
-    ex.explore(entry, budget_s, on_pending=lambda e: len(e.stack) >= target)
-    if not ex.stack:
-        return collect(ex, entry, time.time() - t0)
-    pending = ex.stack; ex.stack = []
-    base = collect(ex, entry, 0)
-    kids = []
-    groups = [pending[i::split] for i in range(split)]
-    for g in groups:
-        if not g: continue
-        r, w = os.pipe()
-        pid = os.fork()
-        if pid == 0:
-            os.close(r)
-            try:
-                ex.stats = {k: (0 if isinstance(v, (int, float)) and not isinstance(v, bool) else v) for k, v in ex.stats.items()}
-                ex.violations = []; ex.samples = []; ex.reach_all = set(); ex.funcs_executed = set()
-                ex.bound_exceeded_at = {}; ex.unsupported_at = {}
-                ex.stack = list(g)
-                left = budget_s - (time.time() - t0) if budget_s else None
-                tt = time.time()
-                while ex.stack:
-                    if left is not None and time.time() - tt > left:
-                        ex.stats['timeout'] = True; break
-                    ex.run(ex.stack.pop())
-                res = collect(ex, entry, time.time() - tt)
-            except BaseException as e:
-                res = dict(entry=entry, error=traceback.format_exc())
-            with os.fdopen(w, 'wb') as f: pickle.dump(res, f)
-            os._exit(0)
-        os.close(w)
-        kids.append((pid, r))
-    results = [base]
-    for pid, r in kids:
-        with os.fdopen(r, 'rb') as f:
-            data = f.read()
-        os.waitpid(pid, 0)
-        if not data: results.append(dict(entry=entry, error='child died (out of memory?)'))
-        else: results.append(pickle.loads(data))
+    outdir = tempfile.mkdtemp(prefix='vfres_', dir=lower.BUILD)
+    try:
+        ex.stack = [ex.start(entry)]
+        _worker(ex, entry, t0 + budget_s if budget_s else None, outdir)
+        results = [collect(ex, entry, 0)]
+        for fn in os.listdir(outdir):
+            with open(os.path.join(outdir, fn), 'rb') as f: results.append(pickle.load(f))
+    finally:
+        shutil.rmtree(outdir, ignore_errors=True)
     out = merge(results, entry)
     out['wall_s'] = time.time() - t0
+    out['helpers'] = len(results) - 1
     return out
 
 def collect(ex, entry, wall):
@@ -102,12 +110,14 @@ def run_jobs(jobs, nproc):
             pid = os.fork()
             if pid == 0:
                 os.close(r)
+                if SEM is not None: SEM.acquire()
                 try: res = fn()
                 except BaseException:
                     res = dict(error=traceback.format_exc())
                 try:
                     with os.fdopen(w, 'wb') as f: pickle.dump(res, f)
                 finally:
+                    if SEM is not None: SEM.release()
                     os._exit(0)
             os.close(w)
             running[pid] = (key, r)
@@ -200,7 +210,9 @@ def match_known(known, prop, unit, entry, v):
 # ------------------------------------------------------------------------------------------ main
 
 def main():
-    import argparse
+    import argparse, multiprocessing
+    global SEM
+    SEM = multiprocessing.BoundedSemaphore(NPROC)
     ap = argparse.ArgumentParser()
     ap.add_argument('prop')
     ap.add_argument('--tier', default=os.environ.get('VERIF_TIER', 'quick'))
@@ -250,7 +262,7 @@ def main():
         for e in entries:
             sp = split.get(e, split.get('*', 0)) if isinstance(split, dict) else split
             jobs.append(((u['name'], e), (lambda mod=b['mod'], e=e, opts=opts, budget=budget, sp=sp: explore_entry(mod, e, opts, budget, sp))))
-    results = run_jobs(jobs, NPROC)
+    results = run_jobs(jobs, max(NPROC, len(jobs)))
     # 3. judge
     violations = []; known_hits = {}; inconclusive = []; totals = {}
     funcs = set(); samples = []; per_entry = {}
